@@ -46,17 +46,17 @@ func VerifStickyEncodeV0(topics map[string][]int32) ([]byte, error) {
 
 // VerifStickyTrace is what the sticky.iter.* / sticky.pick call sites reported during one Plan call.
 type VerifStickyTrace struct {
-	PrepopMembers   []string
-	PrepopParts     []VerifTP
-	PlanCurrent     []string
-	PlanUnvisited   []VerifTP
-	IdentParts      [][]string
-	IdentMembers    [][]VerifTP
-	SortUnassigned  []VerifTP
-	Picks           []VerifTP
-	Events          int
-	Other           map[string]int // reports of kinds this shim does not know (scratch instrumentation)
-	Mu              sync.Mutex     // guards the fields above while Plan is still running (watchdog reads)
+	PrepopMembers  []string
+	PrepopParts    []VerifTP
+	PlanCurrent    []string
+	PlanUnvisited  []VerifTP
+	IdentParts     [][]string
+	IdentMembers   [][]VerifTP
+	SortUnassigned []VerifTP
+	Picks          []VerifTP
+	Events         int
+	Other          map[string]int // reports of kinds this shim does not know (scratch instrumentation)
+	Mu             sync.Mutex     // guards the fields above while Plan is still running (watchdog reads)
 }
 
 // VerifStickyPlan runs a fresh stickyBalanceStrategy.Plan with the observer installed; a panic is recovered and reported.
